@@ -236,7 +236,7 @@ func runFragmented(c *core.Ctx) {
 	// geometry of obipcr --fragmented (read from the command, used only to aim the planted sites)
 	minsize := cfg.MaxLen * 1000
 	length := cfg.MaxLen * 100
-	overlap := cfg.MaxLen + max(lf, lr) + min(lf, lr)/2
+	overlap := cfg.MaxLen + lf + lr
 	step := length - overlap
 	var ts []tmpl
 	nT := 1 + r.Intn(2)
@@ -247,6 +247,22 @@ func runFragmented(c *core.Ctx) {
 		}
 		t := gen.DNA(r, N)
 		nPlant := 10 + r.Intn(30)
+		if k == 0 && c.Idx%3 == 0 {
+			// a tiling of the longest product the options allow (every copy with its own insert),
+			// the copies a fixed distance apart: their starts fall on every kind of offset relative
+			// to the fragment borders, whatever the fragment geometry is
+			gap := 1 + r.Intn(9)
+			for at := r.Intn(20); ; {
+				w := gen.Construct(r, cfg.Forward, cfg.Reverse, 0, 0, cfg.MaxLen)
+				if at+len(w) > N {
+					break
+				}
+				gen.Overlay(t, w, at, false)
+				at += len(w) + gap
+			}
+			nPlant = 0
+			c.Count("tiled_templates", 1)
+		}
 		for i := 0; i < nPlant; i++ {
 			ins := cfg.MaxLen - r.Intn(min(cfg.MaxLen, 4))
 			if r.Intn(4) == 0 {
@@ -272,8 +288,27 @@ func runFragmented(c *core.Ctx) {
 			default:
 				at = r.Intn(N)
 			}
+			if r.Intn(6) == 0 {
+				// the longest product the options allow, placed on the very first / last positions from
+				// which one fragment still holds it whole
+				w = gen.Construct(r, cfg.Forward, cfg.Reverse, 0, 0, cfg.MaxLen)
+				if r.Intn(2) == 0 {
+					w = gen.PCRRevCompACGT(w)
+				}
+				if r.Intn(2) == 0 {
+					at = j*step - 3 + r.Intn(5)
+				} else {
+					at = (j-1)*step + length - len(w) - 2 + r.Intn(5)
+				}
+			}
 			at = max(0, min(at, N-len(w)))
 			gen.Overlay(t, w, at, false)
+			if i == 0 && N > 6*length {
+				// the same locus a second time, several fragments away: two products with the same
+				// sequence and the same match strings are two products
+				at2 := (at + 3*length + r.Intn(length)) % (N - len(w))
+				gen.Overlay(t, w, at2, false)
+			}
 		}
 		ts = append(ts, tmpl{ID: fmt.Sprintf("long%d", k), Seq: string(t)})
 	}
@@ -284,6 +319,7 @@ func runFragmented(c *core.Ctx) {
 		return
 	}
 	plainOut := map[string]map[string]int{}
+	plainCnt := map[string]map[string]int{} // with multiplicities
 	for _, frag := range []bool{false, true} {
 		args := cliArgs(c, cfg, "--max-cpu", "2")
 		if frag {
@@ -339,6 +375,7 @@ func runFragmented(c *core.Ctx) {
 			}
 			if !frag {
 				plainOut[t.ID] = multiset(byT[t.ID], true)
+				plainCnt[t.ID] = multiset(byT[t.ID], false)
 			} else {
 				// classify by comparison with the run without --fragmented
 				for i := range devs {
@@ -369,6 +406,12 @@ func runFragmented(c *core.Ctx) {
 				}
 				sort.Strings(keys)
 				for _, k := range keys {
+					if want[k] > 1 && seen[k] < want[k] && plainCnt[t.ID][k] >= want[k] {
+						// several loci give the same product: one amplicon per locus, as without --fragmented
+						violate(c, "missing:identical-products-of-distinct-loci", "obipcr --fragmented reports fewer amplicons than there are pairs of sites giving that product",
+							map[string]any{"args": args, "template_id": t.ID, "template_length": len(t.Seq), "record": k, "times": seen[k], "pairs_defining_it": want[k], "times_without_fragmented": plainCnt[t.ID][k]})
+						break
+					}
 					if want[k] > 0 && seen[k] > want[k] {
 						violate(c, "duplicate:fragment-overlap", "obipcr --fragmented reports the amplicon of one pair of sites more than once",
 							map[string]any{"args": args, "template_id": t.ID, "template_length": len(t.Seq), "record": k, "times": seen[k], "pairs_defining_it": want[k], "fragment_length": length, "fragment_step": step})
